@@ -16,7 +16,7 @@ TIMEOUT = {'quick': 1500, 'thorough': 7200}
 MUST_HIT = ['Classify.input-accepted', 'Classify.input-rejected', 'Classify.build-ok',
             'Classify.build-rejected', 'ShadowLoader.compare', 'ShadowLoader.statements-unchanged',
             'CpuBudget.guarded', 'Route.input', 'Route.file_input', 'Route.filename_input',
-            'ShadowLoader.diagnostic-compared']
+            'ShadowLoader.diagnostic-compared', 'Valid.named-inserts-with-different-column-lists']
 MUST_REACH = ['xtuml/load.py:ModelLoader.t_error', 'xtuml/load.py:ModelLoader.p_error',
               'xtuml/load.py:deserialize_value', 'xtuml/load.py:ModelLoader.p_cardinality_many',
               'xtuml/load.py:ModelLoader.input', 'xtuml/load.py:ModelLoader.build_metamodel']
@@ -139,11 +139,23 @@ def try_build(ctx, loader, texts):
         return ('ok', 'unserializable:%s' % type(e).__name__)
 
 
+VALID_SHAPES = {}
+
+
 def valid_file(rng):
     schema = sqlgen.random_schema(rng, hostile_names=rng.random() < 0.5, max_classes=3, max_attrs=4)
     pop, _ = sqlgen.resolved_population(rng, schema, max_inst=3)
     stmts = sqlgen.schema_statements(schema)
-    stmts += [t for _, _, t in sqlgen.insert_statements(schema, pop, rng, named=True)]
+    ins = sqlgen.insert_statements(schema, pop, rng, named=True, omit_unset=rng.random() < 0.5)
+    stmts += [t for _, _, t in ins]
+    lists = {}
+    for kind, _, t in ins:
+        if ' VALUES' in t and t.split(' VALUES')[0].endswith(')'):
+            lists.setdefault(kind, set()).add(t.split(' VALUES')[0])
+    if any(len(v) > 1 and len(set(len(x.split(',')) for x in v)) > 1 for v in lists.values()):
+        # named inserts into one table with column lists of different length
+        VALID_SHAPES['Valid.named-inserts-with-different-column-lists'] = \
+            VALID_SHAPES.get('Valid.named-inserts-with-different-column-lists', 0) + 1
     if rng.random() < 0.3:
         rng.shuffle(stmts)
     return '\n'.join(stmts) + '\n'
@@ -259,3 +271,5 @@ def run(ctx):
         return
     single_texts(ctx, rng, ctx.share(24000 if ctx.tier == 'quick' else 2000000))
     sequences(ctx, rng, ctx.share(1200 if ctx.tier == 'quick' else 60000))
+    for k, n in VALID_SHAPES.items():
+        ctx.hit(k, n)
